@@ -48,6 +48,10 @@ func c12Alphabet() []c12Shape {
 		{Name: "unknown-method", Env: kit.EnvSpec{Method: sp("/" + kit.SvcName + "/nope"), Body: body, Wrap: true}, Malformed: true},
 		{Name: "unparsable-method", Env: kit.EnvSpec{Method: sp("nomethod"), Body: body, Wrap: true}, Malformed: true},
 		{Name: "empty-method", Env: kit.EnvSpec{Method: sp(""), Body: body, Wrap: true}, Malformed: true},
+		{Name: "slash-only-method", Env: kit.EnvSpec{Method: sp("/"), Body: body, Wrap: true}, Malformed: true},
+		{Name: "leading-slash-only-method", Env: kit.EnvSpec{Method: sp("/u"), Body: body, Wrap: true}, Malformed: true},
+		{Name: "double-slash-method", Env: kit.EnvSpec{Method: sp("//"), Body: body, Wrap: true}, Malformed: true},
+		{Name: "no-method-name", Env: kit.EnvSpec{Method: sp("/" + kit.SvcName + "/"), Body: body, Wrap: true}, Malformed: true},
 		{Name: "no-header", Env: kit.EnvSpec{NoHeader: true, Body: body, Wrap: true}, Malformed: true},
 		{Name: "empty", Env: kit.EnvSpec{Empty: true}, Malformed: true},
 		{Name: "open", Env: kit.EnvSpec{Method: sm}, ValidOpen: true},
